@@ -81,6 +81,30 @@ Lemma choose_members_len (rnd : oracle) (ms : @members Id) wanted picker n :
   len (fst (choose_members rnd ms wanted picker n)) <= wanted.
 Proof. unfold choose_members. apply choose_loop_len. unfold len; cbn; lia. Qed.
 
+Lemma indirect_absorbs p from n :
+  n = p_number p -> In from (p_indirect p) ->
+  snd (probe_take_failed (fst (probe_receive_indirect_ack p from n))) = None.
+Proof.
+  intros E Hin. unfold probe_receive_indirect_ack. replace (negb (p_number p =? n)) with false by lia.
+  destruct (find_index (fun i => id_eqb i from) (p_indirect p)) as [pos|] eqn:F.
+  - unfold probe_take_failed, probe_succeeded. cbn.
+    replace (0 <? p_indirect_ack_count p + 1) with true by lia. rewrite orb_true_r. reflexivity.
+  - exfalso. rewrite find_index_None in F. specialize (F from Hin). cbn in F. rewrite id_eqb_refl in F. discriminate.
+Qed.
+
+Lemma acked_round_no_suspicion p from n :
+  n = p_number p -> probe_is_probing p from = true ->
+  snd (probe_take_failed (fst (probe_receive_ack p from n))) = None.
+Proof.
+  intros E H. unfold probe_receive_ack. replace (n =? p_number p) with true by lia. rewrite H. reflexivity.
+Qed.
+
+Lemma higher_incarnation_refutes (m : member Id) (i : N) :
+  m_state m = Suspect -> m_inc m < i -> change_state m i Alive = (mkMember (m_id m) i Alive, true).
+Proof.
+  intros S L. unfold change_state, can_change. rewrite S. replace (m_inc m <? i) with true by lia. reflexivity.
+Qed.
+
 End ProbeFacts.
 
 Section Replies.
